@@ -3,6 +3,8 @@ package lakesim
 import (
 	"context"
 	"fmt"
+	"github.com/brimdata/super/compiler/optimizer/demand"
+	"github.com/brimdata/super/zio/vngio"
 	"sort"
 	"strings"
 
@@ -201,6 +203,45 @@ func (r *SeqRun) usOf(objs idset) []int {
 }
 
 func (r *SeqRun) usOfIDs(ids []ksuid.KSUID) []int { return r.usOf(idSet(ids)) }
+
+// checkVectorCopy reads the vector copy of a data object through the
+// repository's VNG reader and compares its values with the object's.
+func (r *SeqRun) checkVectorCopy(id ksuid.KSUID, sig, when string) *kernel.Violation {
+	obs, err := r.E.W.Open(r.E.Ctx, "observer", false)
+	if err != nil {
+		return kernel.Violatef(sig+":unreadable", "%s: %v", when, err)
+	}
+	pool, err := obs.Root.OpenPool(r.E.Ctx, r.PM.ID)
+	if err != nil {
+		return kernel.Violatef(sig+":unreadable", "%s: %v", when, err)
+	}
+	rd, err := obs.H.Get(r.E.Ctx, data.VectorURI(pool.DataPath, id))
+	if err != nil {
+		return kernel.Violatef(sig+":vector-copy-unreadable", "%s: the snapshot lists a vector copy of object %s that cannot be opened: %v", when, id, err)
+	}
+	defer rd.Close()
+	zr, err := vngio.NewReader(zed.NewContext(), rd, demand.All())
+	if err != nil {
+		return kernel.Violatef(sig+":vector-copy-unreadable", "%s: the vector copy of object %s cannot be read: %v", when, id, err)
+	}
+	var us []int
+	for {
+		v, err := zr.Read()
+		if err != nil {
+			return kernel.Violatef(sig+":vector-copy-unreadable", "%s: the vector copy of object %s cannot be read: %v", when, id, err)
+		}
+		if v == nil {
+			break
+		}
+		us = append(us, UOf(*v))
+	}
+	sort.Ints(us)
+	if ok, diff := sameMultiset(us, r.usOfIDs([]ksuid.KSUID{id})); !ok {
+		return kernel.Violatef(sig+":vector-copy-content", "%s: the vector copy of object %s holds other values than the object: %s", when, id, diff)
+	}
+	r.E.W.Out.Probe("vector-copy-read-back")
+	return nil
+}
 
 // pathOf returns the commits from c back to the root (c first).
 func (r *SeqRun) pathOf(c ksuid.KSUID) []ksuid.KSUID {
@@ -670,6 +711,13 @@ func (r *SeqRun) Verify(op *Op, ex *Expect, commit ksuid.KSUID, when string) *ke
 			}
 			if vecs[id] != want {
 				return kernel.Violatef(sig+":vector-state", "%s: object %s has-vector=%v, expected %v", when, id, vecs[id], want)
+			}
+			if vecs[id] && chosen[id] {
+				// The vector copy the snapshot now promises can be read
+				// and holds the object's values.
+				if v := r.checkVectorCopy(id, sig, when); v != nil {
+					return v
+				}
 			}
 		}
 	case "merge":
